@@ -127,8 +127,8 @@ def lock_field(prog: Program, ci: ClassInfo) -> str:
     locks = []
     if init is not None:
         for n in prog._own_nodes(init.node):
-            if isinstance(n, ast.Assign) and isinstance(n.value, ast.Call) and ast.unparse(n.value.func) in ("threading.Lock", "threading.RLock", "Lock", "RLock"):
-                for t in n.targets:
+            if isinstance(n, (ast.Assign, ast.AnnAssign)) and isinstance(n.value, ast.Call) and ast.unparse(n.value.func) in ("threading.Lock", "threading.RLock", "Lock", "RLock"):
+                for t in (n.targets if isinstance(n, ast.Assign) else [n.target]):  # (`self._lock: threading.Lock = threading.Lock()` too)
                     if isinstance(t, ast.Attribute):
                         locks.append((t.attr, ast.unparse(n.value.func)))
     if not locks:
